@@ -173,4 +173,306 @@ theorem orderHyps_real : OrderHyps ℝ where
       linarith
     have hc : (0 : ℝ) < c := lt_of_lt_of_le hc' (by exact_mod_cast hcc)
     exact div_pos hc hn
+/-! ## B. candidates -/
+section Cands
+variable {α : Type} [Add α] [Sub α] [Mul α] [Div α] [Neg α] [LT α] [LE α]
+  [DecidableLT α] [DecidableLE α] [NumFns α]
+
+/-- `compute_theta` of the closed-form families raises nothing but `ValueError` (generated code). -/
+theorem tryCandidate_ok (solve : α → α) (τ : α) (f : Family) (o : Option (Cand α))
+    (h : tryCandidate solve τ f = .ok o) :
+    (o = none ∧ (computeThetaFam f solve τ = .error .valueError ∨
+        ∃ θ, computeThetaFam f solve τ = .ok θ ∧ checkThetaB f θ = false)) ∨
+    (∃ θ, o = some ⟨f, τ, θ⟩ ∧ computeThetaFam f solve τ = .ok θ ∧ checkThetaB f θ = true) := by
+  unfold tryCandidate at h
+  split at h
+  · left; injection h with h; exact ⟨h.symm, Or.inl (by assumption)⟩
+  · cases h
+  · rename_i θ hθ
+    by_cases hc : checkThetaB f θ = true
+    · right; simp [hc] at h; exact ⟨θ, h.symm, hθ, hc⟩
+    · left; simp [hc] at h; exact ⟨h.symm, Or.inr ⟨θ, hθ, by simpa using hc⟩⟩
+
+/-- the candidates built after Frank: exactly the classes (in the order tried) whose calibration of
+    the shared τ exists and passes `check_theta`; each carries τ and that calibration. -/
+theorem extraCandidates_spec (solve : α → α) (τ : α) :
+    ∀ (fs : List Family) (cs : List (Cand α)), extraCandidates solve τ fs = .ok cs →
+      (∀ c ∈ cs, c.tau = τ ∧ c.fam ∈ fs ∧ computeThetaFam c.fam solve τ = .ok c.theta ∧
+        checkThetaB c.fam c.theta = true) ∧
+      (cs.map (·.fam)).Sublist fs ∧
+      (∀ f ∈ fs, ∀ θ, computeThetaFam f solve τ = .ok θ → checkThetaB f θ = true →
+        (⟨f, τ, θ⟩ : Cand α) ∈ cs) := by
+  intro fs
+  induction fs with
+  | nil =>
+    intro cs h
+    simp [extraCandidates] at h
+    subst h
+    simp
+  | cons f fs ih =>
+    intro cs h
+    unfold extraCandidates at h
+    split at h
+    · cases h
+    · rename_i o ho
+      split at h
+      · cases h
+      · rename_i cs' hcs'
+        injection h with h
+        subst h
+        obtain ⟨h1, h2, h3⟩ := ih cs' hcs'
+        rcases tryCandidate_ok solve τ f o ho with ⟨hnone, hwhy⟩ | ⟨θ, hsome, hθ, hc⟩
+        · subst hnone
+          refine ⟨?_, ?_, ?_⟩
+          · intro c hc
+            simp at hc
+            obtain ⟨a, b, c', d⟩ := h1 c hc
+            exact ⟨a, List.mem_cons_of_mem _ b, c', d⟩
+          · simpa using h2.trans (List.sublist_cons_self f fs)
+          · intro g hg θ hθ hc
+            simp only [Option.toList_none, List.nil_append]
+            rcases List.mem_cons.mp hg with rfl | hg
+            · rcases hwhy with hw | ⟨θ', hw, hw'⟩
+              · rw [hw] at hθ; cases hθ
+              · rw [hw] at hθ; injection hθ with hθ; subst hθ; rw [hw'] at hc; cases hc
+            · exact h3 g hg θ hθ hc
+        · subst hsome
+          refine ⟨?_, ?_, ?_⟩
+          · intro c hc'
+            simp only [Option.toList_some, List.singleton_append, List.mem_cons] at hc'
+            rcases hc' with rfl | hc'
+            · exact ⟨rfl, by simp, hθ, hc⟩
+            · obtain ⟨a, b, c', d⟩ := h1 c hc'
+              exact ⟨a, List.mem_cons_of_mem _ b, c', d⟩
+          · simpa using h2
+          · intro g hg θ' hθ' hc'
+            simp only [Option.toList_some, List.singleton_append, List.mem_cons]
+            rcases List.mem_cons.mp hg with rfl | hg
+            · left; rw [hθ] at hθ'; injection hθ' with hθ'; subst hθ'; rfl
+            · right; exact h3 g hg θ' hθ' hc'
+
+/-- a successful `Frank.fit`: the two attributes it leaves behind. -/
+theorem fit_frank_ok (solve : α → α) (inp : FitInput α) (st : FitState α)
+    (h : (Model.fit .frank solve inp { tau := none, theta := none }) = (.ok (), st)) :
+    st.tau = some inp.tau ∧ st.theta = some (.fin (solve inp.tau)) ∧
+      checkThetaB Family.frank (Bound.fin (solve inp.tau)) = true ∧ NumFns.isNaN inp.tau = false := by
+  unfold Model.fit at h
+  split at h
+  · cases h
+  · split at h
+    · cases h
+    · simp only [] at h
+      split at h
+      · cases h
+      · rename_i hnan
+        simp only [computeThetaFam] at h
+        split at h
+        · injection h with h1 h2
+          subst h2
+          rename_i hc
+          exact ⟨rfl, rfl, hc, by simpa using hnan⟩
+        · cases h
+
+/-- the shape of a successful `select_copula` run. -/
+theorem selectOutcome_ok (ext : Ext α) (base : List α) (data : List (α × α)) (o : Outcome α)
+    (h : selectOutcome ext base data = .ok o) :
+    ∃ st, Model.fit .frank ext.frankSolve ext.fitInput { tau := none, theta := none } = (.ok (), st) ∧
+      let τ := ext.fitInput.tau
+      let θF : Bound α := .fin (ext.frankSolve τ)
+      ((Gen.SelectCopula.frankOnly τ = true ∧ o = .early ⟨.frank, τ, θF⟩) ∨
+       (Gen.SelectCopula.frankOnly τ = false ∧ rankPath ext base data τ θF = .ok o)) := by
+  unfold selectOutcome at h
+  split at h
+  · cases h
+  · rename_i u st hfit
+    have hu : u = () := rfl
+    subst hu
+    obtain ⟨h1, h2, _, _⟩ := fit_frank_ok _ _ _ hfit
+    refine ⟨st, hfit, ?_⟩
+    rw [h1, h2] at h
+    simp only [] at h
+    by_cases hg : Gen.SelectCopula.frankOnly ext.fitInput.tau = true
+    · left
+      simp [hg] at h
+      exact ⟨hg, h.symm⟩
+    · right
+      simp [hg] at h
+      exact ⟨by simpa using hg, h⟩
+
+theorem allCurves_length (inf : α) (zl zr : List α) :
+    ∀ (cs : List (Cand α)) (xs : List (Curves α)), allCurves inf zl zr cs = .ok xs →
+      xs.length = cs.length := by
+  intro cs
+  induction cs with
+  | nil => intro xs h; simp [allCurves] at h; subst h; rfl
+  | cons c cs ih =>
+    intro xs h
+    unfold allCurves at h
+    split at h
+    · cases h
+    · split at h
+      · cases h
+      · rename_i xs' hxs'
+        injection h with h
+        subst h
+        simp [ih xs' hxs']
+
+/-- the shape of a successful ranking path. -/
+theorem rankPath_ok (ext : Ext α) (base : List α) (data : List (α × α)) (τ : α) (θF : Bound α)
+    (o : Outcome α) (h : rankPath ext base data τ θF = .ok o) :
+    ∃ extra emp curves c,
+      extraCandidates ext.frankSolve τ Gen.SelectCopula.extraFamilies = .ok extra ∧
+      computeEmpirical base data = .ok emp ∧
+      allCurves ext.inf emp.zLeft emp.zRight (⟨.frank, τ, θF⟩ :: extra) = .ok curves ∧
+      let cands : List (Cand α) := ⟨.frank, τ, θF⟩ :: extra
+      let ts := curves.map (distTriple emp.L emp.R)
+      let sc := scores Gen.SelectCopula.rankAscending ts
+      let idx := pickIdx Gen.SelectCopula.pickMax sc
+      cands[idx]? = some c ∧ o = .ranked ⟨cands, emp, curves, ts, sc, idx⟩ c := by
+  unfold rankPath at h
+  split at h
+  · cases h
+  · rename_i extra hextra
+    split at h
+    · cases h
+    · rename_i emp hemp
+      simp only [] at h
+      split at h
+      · cases h
+      · rename_i curves hcurves
+        split at h
+        · rename_i c hc
+          injection h with h
+          exact ⟨extra, emp, curves, c, hextra, hemp, hcurves, hc, h.symm⟩
+        · cases h
+
+end Cands
+
+/-! ## C. ranking and arg-max at ℝ -/
+section Real
+
+/-- pandas' descending average rank of `x` within `d`: the entries strictly larger than `x` come
+    first, then the tie group of `x` (size `e`) occupying positions `g+1 … g+e`, whose mean is
+    `g + (e+1)/2`. -/
+noncomputable def rankR (d : List ℝ) (x : ℝ) : ℝ :=
+  (d.countP (fun y => decide (x < y)) : ℝ) + ((d.countP (fun y => decide (x = y)) : ℝ) + 1) / 2
+
+theorem rankOf_real (d : List ℝ) (x : ℝ) :
+    rankOf Gen.SelectCopula.rankAscending d x = some (rankR d x) := by
+  have hb : (fun y : ℝ => NumFns.beq x y) = fun y => decide (x = y) := rfl
+  simp only [rankOf, Gen.SelectCopula.rankAscending, isNaN_real, hb, rankR, ofNat_real]
+  simp only [Bool.false_eq_true, if_false]
+  congr 1
+  push_cast
+  ring
+
+theorem countP_add_le {β : Type} (p q r : β → Bool) (l : List β) (hp : ∀ z, p z = true → r z = true)
+    (hq : ∀ z, q z = true → r z = true) (hpq : ∀ z, p z = true → q z = true → False) :
+    l.countP p + l.countP q ≤ l.countP r := by
+  induction l with
+  | nil => simp
+  | cons a l ih =>
+    simp only [List.countP_cons]
+    have h1 := hp a
+    have h2 := hq a
+    have h3 := hpq a
+    cases hpa : p a <;> cases hqa : q a <;> cases hra : r a <;> simp_all <;> omega
+
+/-- descending ranks reverse the order: the smaller distance gets the strictly larger rank. -/
+theorem rankR_strictAnti (d : List ℝ) {x y : ℝ} (hy : y ∈ d) (hxy : x < y) :
+    rankR d y < rankR d x := by
+  have h1 : d.countP (fun z => decide (y < z)) + d.countP (fun z => decide (y = z))
+      ≤ d.countP (fun z => decide (x < z)) := by
+    apply countP_add_le
+    · intro z hz; simp only [decide_eq_true_eq] at hz ⊢; exact lt_trans hxy hz
+    · intro z hz; simp only [decide_eq_true_eq] at hz ⊢; exact hz ▸ hxy
+    · intro z hz hz'; simp only [decide_eq_true_eq] at hz hz'; exact absurd hz (hz' ▸ lt_irrefl y)
+  have h2 : 0 < d.countP (fun z => decide (y = z)) :=
+    List.countP_pos_iff.mpr ⟨y, hy, by simp⟩
+  have h1' : ((d.countP (fun z => decide (y < z)) : ℕ) : ℝ) + (d.countP (fun z => decide (y = z)) : ℕ)
+      ≤ (d.countP (fun z => decide (x < z)) : ℕ) := by exact_mod_cast h1
+  have h2' : (1 : ℝ) ≤ (d.countP (fun z => decide (y = z)) : ℕ) := by exact_mod_cast h2
+  have h3 : (0 : ℝ) ≤ (d.countP (fun z => decide (x = z)) : ℕ) := Nat.cast_nonneg _
+  unfold rankR
+  linarith
+
+/-- every rank lies in `[1, n]` … at least: it is at least 1 and at most the length. -/
+theorem rankR_bounds (d : List ℝ) {x : ℝ} (hx : x ∈ d) : 1 ≤ rankR d x ∧ rankR d x ≤ d.length := by
+  have h0 : d.countP (fun z => decide (x < z)) + d.countP (fun z => decide (x = z))
+      ≤ d.countP (fun _ => true) := by
+    apply countP_add_le
+    · intro z _; rfl
+    · intro z _; rfl
+    · intro z hz hz'; simp only [decide_eq_true_eq] at hz hz'; exact absurd hz (hz' ▸ lt_irrefl x)
+  have hall : d.countP (fun _ => true) = d.length := by simp
+  rw [hall] at h0
+  have h2 : 0 < d.countP (fun z => decide (x = z)) :=
+    List.countP_pos_iff.mpr ⟨x, hx, by simp⟩
+  have h0' : ((d.countP (fun z => decide (x < z)) : ℕ) : ℝ) + (d.countP (fun z => decide (x = z)) : ℕ)
+      ≤ (d.length : ℝ) := by exact_mod_cast h0
+  have h2' : (1 : ℝ) ≤ (d.countP (fun z => decide (x = z)) : ℕ) := by exact_mod_cast h2
+  have h3 : (0 : ℝ) ≤ (d.countP (fun z => decide (x < z)) : ℕ) := Nat.cast_nonneg _
+  unfold rankR
+  constructor <;> linarith
+
+/-- the score `select_copula` gives to a candidate with distance triple `t` among all triples `ts`. -/
+noncomputable def scoreR (ts : List (ℝ × ℝ × ℝ)) (t : ℝ × ℝ × ℝ) : ℝ :=
+  rankR (ts.map fun t => t.1) t.1 + rankR (ts.map fun t => t.2.1) t.2.1 +
+    rankR (ts.map fun t => t.2.2) t.2.2
+
+theorem scores_real (ts : List (ℝ × ℝ × ℝ)) :
+    scores Gen.SelectCopula.rankAscending ts = (ts.map (scoreR ts)).map some := by
+  simp only [scores, rankOf_real, scoreOf, Gen.SelectCopula.scoreSum, scoreR, List.map_map]
+  rfl
+
+/-- `np.argmax` on a NaN-free non-empty vector: the FIRST position of the maximum. -/
+theorem argBest_max (l : List ℝ) (hl : l ≠ []) :
+    ∃ m, l[argBest (fun y x => decide (x < y)) l]? = some m ∧ (∀ y ∈ l, y ≤ m) ∧
+      (∀ j y, j < argBest (fun y x => decide (x < y)) l → l[j]? = some y → y < m) := by
+  induction l with
+  | nil => exact absurd rfl hl
+  | cons x xs ih =>
+    by_cases hxs : xs = []
+    · subst hxs
+      refine ⟨x, by simp [argBest], by simp, ?_⟩
+      intro j y hj; simp [argBest] at hj
+    · obtain ⟨m, hm, hmax, hbefore⟩ := ih hxs
+      by_cases hlt : x < m
+      · refine ⟨m, ?_, ?_, ?_⟩
+        · simp [argBest, hm, hlt]
+        · intro y hy
+          rcases List.mem_cons.mp hy with rfl | hy
+          · exact hlt.le
+          · exact hmax y hy
+        · intro j y hj hjy
+          simp only [argBest, hm, hlt, decide_true, if_true] at hj
+          cases j with
+          | zero => simp at hjy; exact hjy ▸ hlt
+          | succ j =>
+            simp only [List.getElem?_cons_succ] at hjy
+            exact hbefore j y (by omega) hjy
+      · refine ⟨x, ?_, ?_, ?_⟩
+        · simp [argBest, hm, hlt]
+        · intro y hy
+          rcases List.mem_cons.mp hy with rfl | hy
+          · exact le_refl _
+          · exact le_trans (hmax y hy) (not_lt.mp hlt)
+        · intro j y hj; simp [argBest, hm, hlt] at hj
+
+theorem pickIdx_real (l : List ℝ) :
+    pickIdx Gen.SelectCopula.pickMax (l.map some) = argBest (fun y x => decide (x < y)) l := by
+  have h1 : (l.map some).findIdx? Option.isNone = none := by
+    rw [List.findIdx?_eq_none_iff]
+    intro x hx
+    simp only [List.mem_map] at hx
+    obtain ⟨a, _, rfl⟩ := hx
+    rfl
+  have h2 : (l.map some).filterMap id = l := by
+    induction l with
+    | nil => rfl
+    | cons a l ih => simp [List.filterMap_cons, ih]
+  simp only [pickIdx, h1, h2, Gen.SelectCopula.pickMax, if_true]
+
+end Real
+
 end CopVerif.Lemmas.SelectCopula
